@@ -146,6 +146,7 @@ def run(ctx):
     draws_rule(ctx, "C15.R4")
     harvest.sync_order_rule(ctx, "C15.R5", "Sampler")
     c04.grow_order_rule(ctx, "C15.R6")
+    harvest.failed_save_rule(ctx, "C15.R7")
     prog = ctx.prog
     s = prog.need_cls(FARM + ".Sampler")
     sl = list(s.methods.values()) + [prog.need_func(MAN + ".save_df"), prog.need_func(MAN + ".load_df")]
